@@ -9,3 +9,12 @@ mod key_value;
 mod parse_number;
 mod pos;
 mod str_ext;
+
+/// Total ordering of times in which `-0.0` and `0.0` are the same time.
+pub(crate) fn cmp_time(a: f64, b: f64) -> std::cmp::Ordering {
+    if a == b {
+        std::cmp::Ordering::Equal
+    } else {
+        a.total_cmp(&b)
+    }
+}
